@@ -73,6 +73,11 @@ def Callback(returns=None, raises='Exception'):
     return Sh('callback', returns, raises)
 
 
+def LexerObj(**fields):
+    """the PLY lexer object as the token rules see it: lineno, a state switched by begin(), a state stack"""
+    return Sh('lexer', **fields)
+
+
 def TextFilter():
     """the textFilter callable of the code generators: an uninterpreted function of (kind, text)"""
     return Sh('textfilter')
@@ -155,6 +160,24 @@ def build(sh, it, hint='v'):
             it_.ctx.ghost['cb_last_args'] = tuple(args)
             return build(ret_sh, it_, hint + '.ret') if ret_sh is not None else it_.fresh_any(hint + '.ret')
         return pv.VBuiltin('callback:' + hint, call)
+    if k == 'lexer':
+        o = VObj('Lexer')
+        o.fields['lineno'] = SInt(ctx.fresh(z3.IntSort(), hint + '.lineno'))
+        o.fields['state'] = SStr(ctx.fresh(z3.StringSort(), hint + '.state'))
+        o.fields['begins'] = 0
+        from .interp import UNBOUND
+
+        def hook(it_, obj, attr):
+            if attr == 'begin':
+                def begin(i, a, kw):
+                    i.mutating(obj, 'state')
+                    obj.fields['state'] = a[0]
+                    obj.fields['begins'] = obj.fields['begins'] + 1
+                    return None
+                return pv.VBuiltin('lexer.begin', begin)
+            return UNBOUND
+        o.attr_hook = hook
+        return o
     if k == 'textfilter':
         def tf(it_, args, kwargs):
             return SStr(text_filter(pv.as_term_str(args[0]), pv.as_term_str(args[1])))
